@@ -61,35 +61,38 @@ FILE *stub_open_file(char *path) { return stdout; }
 struct IN_t { unsigned char a[2], b[2]; unsigned char la, lb; } IN;
 struct IN_t nondet_IN(void);
 
-static char bufA[4], bufB[4];
+static char SRC[8];
 
-// lex `buf` (spelling + newline), require exactly one token spanning the whole spelling
-static Token *lex_single(char *buf, int len, int kind) {
-  Token *t = tokenize(new_file("a.c", 1, buf));
-  __CPROVER_assume(t->kind == kind && t->len == len && t->loc == buf);
-  __CPROVER_assume(t->next->kind == TK_EOF);
-  return t;
-}
+#ifndef WITH_QUOTES
+#define QUOTE_OK(c) ((c) != '"' && (c) != '\'')
+#else
+#define QUOTE_OK(c) 1
+#endif
 
 static void pair(int ka, int kb) {
   HAVOC_IN();
   __CPROVER_assume(IN.la >= 1 && IN.la <= 2 && IN.lb >= 1 && IN.lb <= 2);
   for (int i = 0; i < 2; i++) {
     __CPROVER_assume(IN.a[i] >= 1 && IN.a[i] < 128 && IN.b[i] >= 1 && IN.b[i] < 128);
-    bufA[i] = i < IN.la ? IN.a[i] : '\n';
-    bufB[i] = i < IN.lb ? IN.b[i] : '\n';
+    __CPROVER_assume(QUOTE_OK(IN.a[i]) && QUOTE_OK(IN.b[i]));
   }
-  bufA[2] = IN.la == 2 ? '\n' : 0; bufA[3] = 0;
-  bufB[2] = IN.lb == 2 ? '\n' : 0; bufB[3] = 0;
+  // "A B\n": the real tokenizer must see exactly the two tokens A and B (each spelling is one token)
+  int n = 0;
+  SRC[n++] = IN.a[0]; if (IN.la == 2) SRC[n++] = IN.a[1];
+  SRC[n++] = ' ';
+  int offB = n;
+  SRC[n++] = IN.b[0]; if (IN.lb == 2) SRC[n++] = IN.b[1];
+  SRC[n++] = '\n'; SRC[n] = 0;
 
-  Token *A = lex_single(bufA, IN.la, ka);
-  Token *B = lex_single(bufB, IN.lb, kb);
-  Token *eof = B->next;
+  Token *A = tokenize(new_file("a.c", 1, SRC));
+  __CPROVER_assume(A->kind == ka && A->len == IN.la && A->loc == SRC);
+  Token *B = A->next;
+  __CPROVER_assume(B->kind == kb && B->len == IN.lb && B->loc == SRC + offB);
+  __CPROVER_assume(B->next->kind == TK_EOF);
 
-  // the list the preprocessor hands to print_tokens when B directly follows A in an expansion
-  A->next = B; A->at_bol = true; A->has_space = false;
+  // the flags the preprocessor gives B when it directly follows A in an expansion result
+  A->at_bol = true; A->has_space = false;
   B->at_bol = false; B->has_space = false;
-  eof->at_bol = true;
 
   OUTN = 0;
   print_tokens(A);
@@ -99,11 +102,13 @@ static void pair(int ka, int kb) {
   Token *r = tokenize(new_file("out.i", 1, OUT));
   VASSERT(r->kind == ka && r->len == IN.la, "first re-lexed token has the kind and length of A");
   for (int i = 0; i < 2; i++)
-    if (i < IN.la && i < r->len) VASSERT(r->loc[i] == bufA[i], "first re-lexed token is spelled like A");
+    if (i < IN.la && i < r->len) VASSERT(r->loc[i] == IN.a[i], "first re-lexed token is spelled like A");
+  __CPROVER_assume(r->kind != TK_EOF);
   Token *s = r->next;
   VASSERT(s->kind == kb && s->len == IN.lb, "second re-lexed token has the kind and length of B");
   for (int i = 0; i < 2; i++)
-    if (i < IN.lb && i < s->len) VASSERT(s->loc[i] == bufB[i], "second re-lexed token is spelled like B");
+    if (i < IN.lb && i < s->len) VASSERT(s->loc[i] == IN.b[i], "second re-lexed token is spelled like B");
+  __CPROVER_assume(s->kind != TK_EOF);
   VASSERT(s->next->kind == TK_EOF, "exactly two tokens are re-lexed");
   VCOVER();
 }
@@ -119,3 +124,8 @@ PAIR(str, TK_STR, ident, TK_IDENT) PAIR(str, TK_STR, num, TK_PP_NUM) PAIR(str, T
 // (a spelling the tokenizer rejects is not a token, so such inputs are outside the quantifier).
 noreturn void stub_error_at(char *loc, char *fmt, ...) { verif_exit(1); }
 noreturn void stub_error_tok(Token *tok, char *fmt, ...) { verif_exit(1); }
+
+// string / character literal readers: with quotes excluded from the alphabet they are unreachable;
+// the stubs ASSERT that (cbmc only), which removes their bodies from the symbolic execution.
+Token *stub_no_literal(char *start, char *quote) { VASSERT(0, "literal reader reached although no quote is in the alphabet"); verif_exit(1); }
+Token *stub_no_literal3(char *start, char *quote, Type *ty) { VASSERT(0, "literal reader reached although no quote is in the alphabet"); verif_exit(1); }
